@@ -84,3 +84,5 @@ LEVEL = {
 }
 
 CFG['rule'] = CFG['rule'] + ' ' + 'Additions: quantiser trigger thresholds are biased towards the history length so that training happens inside the history; a death of the child process is a violation (code 199).'
+
+CFG['rule'] = CFG['rule'] + ' ' + 'Update requests of this profile name one point twice one time in five ([remove the vector field], [set it]); every second history searches the empty index before the first write.'
